@@ -46,15 +46,18 @@ def showCOut (o : COut) (s : Bp.St) : String :=
   | .base o => showOut o s
   | .ctx e => showCtx e s
 
-/-- `frame <k> <ip|->`, `bt`, `locals`: the context-only commands (`ip` = what the implementation's unwinder reported
-for frame `k`, `-` = it refused; checked against the reference call chain by the harness) -/
+/-- `frame <k> <ip|->`, `bt <ok|->`, `locals <ok|->`: the context-only commands (`ip` = what the implementation's
+unwinder reported for frame `k`, `-` = the implementation refused; the ip is checked against the reference call chain
+by the harness) -/
 def decCtx? : List String → Option CtxOp
   | ["frame", k, ip] =>
     match decNat? k with
     | some k => if ip == "-" then some (.frame k none) else (hexNat? ip).map fun a => .frame k (some a)
     | none => none
-  | ["bt"] => some .backtrace
-  | ["locals"] => some .locals
+  | ["bt"] => some (.backtrace true)
+  | ["bt", ok] => some (.backtrace (ok != "-"))
+  | ["locals"] => some (.locals true)
+  | ["locals", ok] => some (.locals (ok != "-"))
   | _ => none
 
 def runC (st : St) (op : COp) : St × String :=
